@@ -88,7 +88,7 @@ def _cleanup():
 
 
 class Result:
-    __slots__ = ("outcome", "base", "code", "diags", "exc", "symbols", "trace", "emitted", "compiler", "lengths")
+    __slots__ = ("outcome", "base", "code", "diags", "exc", "symbols", "trace", "emitted", "compiler", "lengths", "where")
 
     def __init__(self):
         self.outcome = None     # ok | failed | crash | hang
@@ -96,6 +96,7 @@ class Result:
         self.code = None
         self.diags = []         # [(severity, identifier, [(file, start, end, text)])]
         self.exc = None
+        self.where = None
         self.symbols = {}
         self.trace = None
         self.emitted = []
@@ -114,6 +115,16 @@ class Result:
         return {"outcome": self.outcome, "base": self.base, "code": None if self.code is None else self.code.hex(),
                 "errors": [(d[1], [(p[0], p[1], p[2]) for p in d[2]]) for d in self.errors()][:8],
                 "exc": self.exc}
+
+
+def crash_site(ex):
+    """innermost frame inside /repo of an exception: 'file.py:function'"""
+    import traceback
+    site = "?"
+    for fr in traceback.extract_tb(ex.__traceback__):
+        if os.path.abspath(fr.filename).startswith(REPO):
+            site = "%s:%s" % (os.path.basename(fr.filename), fr.name)
+    return site
 
 
 def assemble(sources, charset="bk", timeout=10.0, want_symbols=False, parse_only=False):
@@ -162,6 +173,7 @@ def assemble(sources, charset="bk", timeout=10.0, want_symbols=False, parse_only
             except Exception as ex:  # pylint: disable=broad-except
                 res.outcome = "crash"
                 res.exc = (type(ex).__name__, str(ex)[:300])
+                res.where = crash_site(ex)
     except Hang:
         res.outcome = "hang"
         _reset_module_state()
